@@ -7,7 +7,6 @@ import McpModel.Bearer.Props
 import McpModel.KeepAlive.Props
 import McpModel.OAuth.Props
 import McpModel.OAuth.Challenge
-import McpModel.EventStore.Driver
 import McpModel.Paginate.Props
 import McpModel.Negotiate.Props
 -- (Paginate/Negotiate drivers are roots of their own executables; two `main`s cannot be imported together)
